@@ -11,7 +11,7 @@ package raft
 //@ pure HasVoter(c Config) bool = NumVoters(c) >= 1
 //@ pure SameVoters(a Config, b Config) bool = forall(i, IsVoter(a, i) == IsVoter(b, i))
 
-//@ func (Node).nextAction
+//@ func (Node).nextAction params(n)
 //@   ensures [C08.next-action-table] n.Action == ForceRemove ==> result0 == ForceRemove
 //@   ensures [C08.next-action-table] n.Action != ForceRemove && n.Voter ==> result0 == ite(n.Action == Demote || n.Action == Remove, Demote, None)
 //@   ensures [C08.next-action-table] n.Action != ForceRemove && !n.Voter ==> result0 == ite(n.Action == Promote, Promote, ite(n.Action == Remove, Remove, None))
@@ -19,7 +19,7 @@ package raft
 //@   ensures [C08.demote-only-voter] result0 == Demote ==> n.Voter
 //@   ensures [C08.remove-only-nonvoter] result0 == Remove ==> !n.Voter
 
-//@ func (Config).clone
+//@ func (Config).clone params(c)
 //@   ensures [C08.clone-same] result0.Index == c.Index && result0.Term == c.Term
 //@   ensures [C08.clone-same] forall(k, has(result0.Nodes, k) == has(c.Nodes, k) && result0.Nodes[k] == c.Nodes[k])
 //@   ensures [C08.clone-fresh] isfresh(result0.Nodes)
@@ -28,11 +28,11 @@ package raft
 
 // (duplicate of pure CfgStable removed: defined in verif_contracts_leader.go)
 
-//@ func (Config).isStable
+//@ func (Config).isStable params(c)
 //@   ensures [C08.stable] result0 == CfgStable(c)
 //@   loop 1 invariant forall(k, visited(k) ==> c.Nodes[k].Action == None) && subset(visitedset(), keys(c.Nodes))
 
-//@ func (Configs).IsStable
+//@ func (Configs).IsStable params(c)
 //@   ensures [C08.stable] result0 == (c.Latest.Index == c.Committed.Index && CfgStable(c.Latest))
 
 // T-std: the standard error constructors return a non-nil error and touch no raft state.
@@ -41,10 +41,10 @@ package raft
 
 //@ pure NodeOK(n Node) bool = n.ID != 0 && n.Action <= ForceRemove && !(n.Action == Promote && n.Voter) && !(n.Action == Demote && !n.Voter)
 
-//@ func (Node).validate
+//@ func (Node).validate params(n)
 //@   ensures [C08.node-valid] result0 == nil ==> NodeOK(n)
 
-//@ func (Config).validate
+//@ func (Config).validate params(c)
 //@   ensures [C08.config-valid] result0 == nil ==> forall(k, has(c.Nodes, k) ==> c.Nodes[k].ID == k && NodeOK(c.Nodes[k]))
 //@   ensures [C08.voter-remains] result0 == nil ==> HasVoter(c)
 //@   loop 1 invariant forall(k, visited(k) ==> c.Nodes[k].ID == k && NodeOK(c.Nodes[k])) && subset(visitedset(), keys(c.Nodes)) && addrs != nil
@@ -67,14 +67,14 @@ package raft
 //@ pure RoundDone(r *round) bool = !tzero(r.End.wall, r.End.ext)
 //@ pure RoundDur(r *round) int = tsub(r.End.wall, r.End.ext, r.Start.wall, r.Start.ext)
 
-//@ func (*round).finished
+//@ func (*round).finished params(r)
 //@   ensures result0 == RoundDone(r)
-//@ func (round).Duration
+//@ func (round).Duration params(r)
 //@   ensures result0 == tsub(r.End.wall, r.End.ext, r.Start.wall, r.Start.ext)
-//@ func (*round).finish
+//@ func (*round).finish params(r)
 //@   modifies r.End
 //@   ensures [C11.round-finish] RoundDone(r)
-//@ func (*round).begin
+//@ func (*round).begin params(r, lastIndex)
 // the frame and the postconditions describe the INTENDED behaviour (End may be written, so the contract is
 // consistent for callers); [C11.round-begin-open] FAILS on the current tree: begin() leaves End untouched,
 // so finished() stays true for every later round of the same node
@@ -88,7 +88,7 @@ package raft
 // STUB (outside area membership)
 // (func (transfer).inProgress: defined in another contract file)
 // STUB (outside area membership)
-//@ func isClosed
+//@ func isClosed params(ch)
 //@   trusted
 // STUB (outside area membership)
 //@ func unreachable
@@ -96,7 +96,7 @@ package raft
 // STUB (outside area membership): encodes with bytes.Buffer; only the header fields matter here
 // [C18.config-roundtrip]: the ghost fields of the entry record what the encoded configuration looks like; the
 // (*Config).decode view in verif_contracts_leader.go reads them back
-//@ func (Config).encode
+//@ func (Config).encode params(c)
 //@   trusted
 //@   ensures result0 != nil && isfresh(result0) && result0.typ == entryConfig && result0.index == c.Index && result0.term == c.Term
 //@   ensures [C18.config-roundtrip] result0.gcfgok && result0.gcgood == CfgGood(c) && forall(k, result0.gcself[k] == SelfOK(c, k))
@@ -122,11 +122,11 @@ package raft
 // Well-formedness used by the leader-side functions below (defined in verif_contracts_leader.go):
 //   LeaderBase(l) / LeaderWF0(l) = LeaderBase + ReplsCover / LeaderWF(l) = LeaderWF0 + LeaderCache; they imply MbLeaderWF(l).
 
-//@ func (*leader).canChangeConfig
+//@ func (*leader).canChangeConfig params(l)
 //@   requires l.Raft != nil && l.storage != nil && l.transfer.timer != nil
 //@   ensures [C02.config-guard] result0 == MbCanChange(l)
 
-//@ func (*leader).doChangeConfig
+//@ func (*leader).doChangeConfig params(l, t, config)
 //@   maypanic OpError
 //@   nilable t
 //@   requires LeaderWF(l) && l.flushed >= l.commitIndex
@@ -154,7 +154,7 @@ package raft
 
 //@ pure MbUnchanged(l *leader, lat Config, com Config, li uint64, ci uint64) bool = l.configs.Latest == lat && l.configs.Committed == com && l.lastLogIndex == li && l.commitIndex == ci
 
-//@ func (*leader).checkConfigAction
+//@ func (*leader).checkConfigAction params(l, t, config, status)
 //@   maypanic OpError
 //@   nilable t
 //@   requires LeaderWF0(l) && l.flushed >= l.commitIndex
@@ -233,7 +233,7 @@ package raft
 //@   loop 1 invariant [C02.config-guard] old(!MbCanChange(l)) ==> MbUnchanged(l, old(l.configs.Latest), old(l.configs.Committed), old(l.lastLogIndex), old(l.commitIndex)) && !MbCanChange(l) && l.node == old(l.node) && l.numVoters == old(l.numVoters) && forall(k, has(l.repls, k) == old(has(l.repls, k)) && l.repls[k] == old(l.repls[k])) && l.flushed == old(l.flushed) && forall(i, l.gterm[i] == old(l.gterm[i]) && l.gtyp[i] == old(l.gtyp[i])) && l.waitStable == old(l.waitStable) && forall(tk, GRep(tk) == old(GRep(tk)))
 //@   loop 1 invariant [C08.actions-fresh] l.configs.Latest.Index == config.Index ==> SameVoters(l.configs.Latest, config)
 
-//@ func (*leader).onChangeConfig
+//@ func (*leader).onChangeConfig params(l, t)
 //@   maypanic OpError
 //@   requires LeaderWF(l) && l.flushed >= l.commitIndex
 //@   requires KeysOK(l.configs.Latest)
@@ -257,7 +257,7 @@ package raft
 //@   loop 3 invariant subset(visitedset(), keys(t.newConf.Nodes))
 
 // the leader area's contract (labels, props and the matchIndex clause restored in the merge)
-//@ func (*leader).addReplication
+//@ func (*leader).addReplication params(l, n)
 //@   requires l.Raft != nil && l.storage != nil && PoolsInv(l.Raft) && l.repls != nil && l.log != nil && l.log.glast == l.lastLogIndex
 //@   requires [C15.no-self-replication] n.ID != l.nid
 //@   requires [C15.view-bounds] l.removeLTE <= l.lastLogIndex
@@ -267,7 +267,7 @@ package raft
 //@   ensures forall(k, k != n.ID ==> has(l.repls, k) == old(has(l.repls, k)) && l.repls[k] == old(l.repls[k]))
 //@   ensures PoolsInv(l.Raft)
 
-//@ func (*leader).changeConfig
+//@ func (*leader).changeConfig params(l, config)
 //@   maypanic OpError
 //@   requires LeaderWF0(l) && l.flushed >= l.commitIndex
 //@   requires [C08.config-index-grows] config.Index > l.configs.Latest.Index
@@ -302,18 +302,18 @@ package raft
 // bootstrap (C08, C11)
 
 // STUB (outside area membership)
-//@ func notLeaderError
+//@ func notLeaderError params(r, lost)
 //@   requires r.storage != nil
 //@   ensures result0.Lost == lost
 // STUB (outside area membership): storage.go; appends the config entry at index 1, flushes, sets term 1;
 // storage faults are recovered into the returned error
-//@ func (*storage).bootstrap
+//@ func (*storage).bootstrap params(s, config)
 //@   trusted
 //@   requires TermInv(s)
 //@   modifies s.lastLogIndex, s.lastLogTerm, s.gterm, s.gtyp, s.flushed, Log.glast, s.term, s.votedFor, s.termVal.v1, s.termVal.v2, fs
 //@   ensures result0 == nil ==> TermInv(s) && s.term == 1 && s.lastLogIndex == 1 && s.lastLogTerm == 1
 
-//@ func (*Raft).bootstrap
+//@ func (*Raft).bootstrap params(r, t)
 //@   requires RaftWF(r) && r.resolver != nil
 //@   modifies t.task.result, t.task.greplied, r.state, r.leader, r.storage.configs, contents(r.resolver.addrs), r.storage.lastLogIndex, r.storage.lastLogTerm, r.storage.gterm, r.storage.gtyp, r.storage.flushed, Log.glast, r.storage.term, r.storage.votedFor, r.storage.termVal.v1, r.storage.termVal.v2, fs
 //@   ensures [C08.bootstrap-once] old(r.configs.Latest.Index) > 0 ==> r.configs.Latest == old(r.configs.Latest) && r.configs.Committed == old(r.configs.Committed) && r.state == old(r.state) && r.lastLogIndex == old(r.lastLogIndex) && r.term == old(r.term)
@@ -322,7 +322,7 @@ package raft
 //@   ensures [C11.bootstrap-self-voter] r.configs.Latest.Index != old(r.configs.Latest.Index) ==> IsVoter(r.configs.Latest, r.nid)
 //@   ensures [C08.bootstrap] r.configs.Latest.Index == old(r.configs.Latest.Index) ==> r.configs.Latest == old(r.configs.Latest) && r.configs.Committed == old(r.configs.Committed) && r.state == old(r.state)
 
-//@ func (*leader).beginFinishedRounds
+//@ func (*leader).beginFinishedRounds params(l)
 //@   requires l.Raft != nil && l.storage != nil && MbReplsWF(l)
 //@   modifies round.Ordinal, round.Start, round.LastIndex, round.End
 //@   ensures [C11.rounds-restarted] forall(k, has(l.repls, k) && l.repls[k].status.round != nil ==> !RoundDone(l.repls[k].status.round))
@@ -331,7 +331,7 @@ package raft
 //@   loop 1 invariant forall(k, visited(k) && l.repls[k].status.round != nil ==> !RoundDone(l.repls[k].status.round))
 //@   loop 1 invariant forall(k, has(l.repls, k) && l.repls[k].status.round != nil && !RoundDone(l.repls[k].status.round) && old(RoundDone(l.repls[k].status.round)) ==> l.repls[k].status.round.LastIndex == l.lastLogIndex)
 
-//@ func (*leader).onWaitForStableConfig
+//@ func (*leader).onWaitForStableConfig params(l, t)
 //@   requires l.Raft != nil && l.storage != nil
 //@   modifies t.task.result, t.task.greplied, l.waitStable, elems(waitForStableConfig)
 //@   ensures [C08.stable-wait] old(CfgCommitted(l.storage) && CfgStable(l.configs.Latest)) ==> l.waitStable == old(l.waitStable)
